@@ -75,9 +75,28 @@ def noise(r):
     return bytes(n)
 
 
+def retransmission(r):
+    """a data frame followed by its retransmission(s): same sequence number, Retransmit bit set"""
+    seq = r.randrange(4)
+    body = command_frame(r, seq)[9:]
+    first = raw_frame(0xC0 | (seq << 2) | (0x02 if r.random() < 0.3 else 0), body)
+    again = raw_frame(0xC0 | (seq << 2) | 0x02, body)
+    return first + again * r.choice([1, 1, 2])
+
+
 def element(r, hostile=True):
     """One stream element with a label."""
-    k = r.randrange(20 if hostile else 8)
+    k = r.randrange(23 if hostile else 9)
+    if k == 8 and not hostile or k == 20:
+        return "retransmit", retransmission(r)
+    if k == 21:   # a frame of a foreign type with valid header and body checksums
+        body = bytes(r.getrandbits(8) for _ in range(r.choice([4, 9, 30])))
+        c = crc16(body)
+        hdr = (len(body) + 7).to_bytes(2, "little") + bytes([r.choice([0, 5, 7, 0x16]), r.choice([0xC0, 0xC4, 0x80, 0x00])])
+        return "wrong-type-data", b"\xde\xad" + hdr + bytes([crc8(hdr)]) + c.to_bytes(2, "little") + body
+    if k == 22:   # data frame with the retransmit bit and any sequence number, first in the stream
+        body = bytes(r.getrandbits(8) for _ in range(r.choice([4, 9, 40])))
+        return "retransmit-flagged", raw_frame(0xC2 | (r.randrange(4) << 2), body)
     if k <= 2:
         return "cmd", command_frame(r)
     if k == 3:
